@@ -27,6 +27,7 @@ def cpp(name):
 
 def main():
     outdir, n_random, n_parts = sys.argv[1], int(sys.argv[2]), int(sys.argv[3])
+    compiled = set(sys.argv[4].split(",")) if len(sys.argv) > 4 and sys.argv[4] else None  # ISAs the translation units are compiled for
     rng = random.Random(0xC15)
     lists = []
     lists.append(("full", None))  # the library's own all_x86_architectures alias
@@ -59,6 +60,10 @@ def main():
         seen.add(tuple(sub))
         lists.append(("shuffled", sub))
 
+    # every list names at least one ISA the unit is compiled for: dispatching over a list made only of foreign ISAs is legal but pointless (no kernel
+    # of the unit could serve it), and keeping such lists out keeps the harness compiling should a library change start rejecting them at compile time
+    if compiled is not None:
+        lists = [(k, m) for k, m in lists if m is None or any(a in compiled for a in m)]
     per = (len(lists) + n_parts - 1) // n_parts
     for part in range(n_parts):
         chunk = lists[part * per:(part + 1) * per]
